@@ -459,6 +459,11 @@ class Program:
         self._cg = None
         self._rcg = None
         self._children = None
+        self.transparent = []
+        self.adopted = {}
+        # functions that the reviewed tree does not have are analysed inlined into their callers (kq/inline.py)
+        from .inline import normalise
+        normalise(self)
 
     # ---------------------------------------------------------------- lookup
     def fn(self, norm):
@@ -520,9 +525,11 @@ class Program:
                 if f.kind == "closure":
                     self._children[norm_name(f.parent)].append(f)
                     self._ichildren[norm_name(f.iparent)].append(f)
-        if transitive:
-            return list(self._children.get(fn.norm, []))
-        return list(self._ichildren.get(fn.norm, []))
+        table = self._children if transitive else self._ichildren
+        out = list(table.get(fn.norm, []))
+        for g in self.adopted.get(fn.norm, ()):      # closures of helpers that were inlined into fn
+            out.extend(self._children.get(g, []))
+        return out
 
     # ---------------------------------------------------------------- call graph
     def callgraph(self):
